@@ -241,10 +241,15 @@ class StmtMixin:
     def loop_spec(self, fr):
         k = fr.loop_ordinal
         fr.loop_ordinal += 1
-        c = self.contracts.get(fr.qual)
+        c = self.contract_for(fr)
         if c is None:
             return k, None
         return k, c.loops.get(k)
+
+    def contract_for(self, fr):
+        if self.current is not None and self.current.qual == fr.qual:
+            return self.current
+        return self.contracts.get(fr.qual)
 
     def st_While(self, s, st, fr):
         k, spec = self.loop_spec(fr)
@@ -344,7 +349,7 @@ class StmtMixin:
         raise Undecided(f"iteration over {type(it).__name__}")
 
     def loop_with_invariant(self, s, st, fr, k, spec, guard, pre_body, step, counter=None, length=None, bind_next=None):
-        c = self.contracts[fr.qual]
+        c = self.contract_for(fr)
         tag = f"{self.prop}.{c.short}.loop{k}"
         line = s.lineno
         if bind_next:
@@ -399,6 +404,8 @@ class StmtMixin:
                 return None
             return r
         st.trace.append(f"L{line}:loop-exit")
+        for gs in spec.get("ghost_exit", []):
+            c.exec_ghost(self, gs, st, fr)
         fr.loop_ordinal += self.count_loops(s.body)
         if getattr(s, "orelse", None):
             return self.exec_block(s.orelse, st, fr)
